@@ -1,1 +1,66 @@
-import RosedVerif.Spec.Layout
+/-
+C06 — Wrap: no line exceeds the width; breaking is greedy and stable.
+
+Layer B: a text is a list of tokens, one per grapheme cluster (`tk.ws` marks whitespace).  The
+clauses are proved for the greedy-wrap specification `Spec.wrapLines`, for every token type; and the
+MODEL of manip.Wrap (the transliterated Go loops with their fuel) is proved to BE that specification
+whenever every atom is its own cluster (`C06_refines`).  The step from code points to clusters is
+tied by the correspondence check on stable vocabularies (DESIGN.md section 3, bridge A→B).
+-/
+import RosedVerif.Spec.WrapLemmas
+import RosedVerif.Model.WrapRefine
+namespace RosedVerif.Props
+open RosedVerif RosedVerif.Spec
+
+variable {α : Type} (tk : Toks α)
+
+/-- (1) after wrapping to width w ≥ 2 every line holds at most w clusters -/
+theorem C06_width {w : Nat} (hw : 2 ≤ w) (l : List α) : ∀ line ∈ Spec.wrapLines tk w l, line.length ≤ w :=
+  wrapLines_width tk hw l
+
+/-- (2) no line is empty when the text has any word -/
+theorem C06_no_empty_line {w : Nat} (hw : 2 ≤ w) (l : List α) (h : words tk l ≠ []) :
+    ∀ line ∈ Spec.wrapLines tk w l, line ≠ [] := wrapLines_nonempty tk hw l h
+
+/-- (2,3) the lines are an ordered partition of the units (words, or pieces of over-long words), each
+line being its units joined by exactly ONE space — so no line starts or ends with a space —, and
+breaking is greedy: the first unit of a line would not have fitted on the previous line -/
+theorem C06_greedy {w : Nat} (hw : 2 ≤ w) (l : List α) (h : l ≠ []) :
+    ∃ groups : List (List (List α)), groups.flatten = units tk w l ∧ (∀ g ∈ groups, g ≠ []) ∧
+      Spec.wrapLines tk w l = groups.map (joinSp tk) ∧ Greedy tk w groups ∧
+      (∀ g ∈ groups, (joinSp tk g).length ≤ w) := wrapLines_partition tk hw l h
+
+/-- (4) a word is split only when it is longer than w … -/
+theorem C06_split_only_long {w : Nat} (word : List α) (f : Nat) (h : word.length ≤ w) :
+    pieces tk w f word = [word] := pieces_single tk word f h
+
+/-- … every non-final piece is exactly w-1 clusters plus a hyphen, and removing those hyphens gives
+back the word -/
+theorem C06_piece_shape {w : Nat} (hw : 2 ≤ w) (word : List α) (f : Nat) (hf : word.length ≤ f) :
+    ∀ p ∈ (pieces tk w f word).dropLast, p.length = w ∧ p.getLast? = some tk.hy :=
+  pieces_shape tk hw word f hf
+
+theorem C06_unhyphen {w : Nat} (hw : 2 ≤ w) (word : List α) (f : Nat) (hf : word.length ≤ f) :
+    unhyphen (pieces tk w f word) = word := pieces_unhyphen tk hw word f hf
+
+/-- (5) wrapping already wrapped text (lines rejoined by a separator, which acts as a space) to the
+same width changes nothing -/
+theorem C06_idempotent {w : Nat} (hw : 2 ≤ w) (hsp : tk.ws tk.sp = true) (hhy : tk.ws tk.hy = false)
+    (l : List α) (h : words tk l ≠ []) :
+    Spec.wrapLines tk w (List.intercalate [tk.sp] (Spec.wrapLines tk w l)) = Spec.wrapLines tk w l :=
+  wrapLines_idem tk hw hsp hhy l h
+
+/-- **refinement**: for every context in which each atom is its own cluster, the model of manip.Wrap
+(CollapseSpace + the character loop + appendWordToWrappedLine, all widths incl. the clamp to 2, all
+separators) computes exactly the specification above -/
+theorem C06_refines [DecidableEq α] (cx : Ctx α) (htriv : ∀ s, cx.ends s = List.range' 1 s.length)
+    (hsp : cx.isSpace cx.sp = true) (text : List α) (w : Int) (sep : List α) :
+    RosedVerif.wrapLines cx text w sep =
+      .ok (Spec.wrapLines ⟨cx.isSpace, cx.sp, cx.hy⟩ (max w 2).toNat (replaceAll' cx text sep)) :=
+  wrapLines_triv cx htriv hsp text w sep
+
+/-! non-vacuity -/
+example : Spec.wrapLines ⟨(· == 0), 0, 99⟩ 5 [1, 2, 3, 0, 4, 5, 6, 7, 8, 9, 0, 1] =
+    [[1, 2, 3], [4, 5, 6, 7, 99], [8, 9, 0, 1]] := by decide
+
+end RosedVerif.Props
